@@ -26,7 +26,8 @@ SHARD_TIMEOUT = {'quick': 600, 'thorough': 3600}
 SIMS = [('JACCARD', True), ('COSINE', True), ('DICE', True), ('OVERLAP_COEFFICIENT', True),
         ('OVERLAP', True), ('user_bound', True), ('user_len_diff', True), ('EDIT_DISTANCE', False),
         ('user_len_diff', False), ('user_neg', True), ('user_neg', False), ('user_signed', True),
-        ('user_nw', False), ('user_nan', True), ('user_nan', False), ('user_jitter', True)]
+        ('user_nw', False), ('user_partial', True), ('user_callable', True), ('user_order', True),
+        ('user_order', True), ('user_tversky', True), ('user_bound', True), ('user_nan', True), ('user_nan', False), ('user_jitter', True)]
 OPS6 = ['>=', '>', '<=', '<', '=', '!=']
 
 ANCHORS = {
@@ -107,8 +108,8 @@ def make_case_call(rng):
         call['numeric_match'] = numeric
     if rng.random() < 0.3:
         call['l_out_prefix'], call['r_out_prefix'] = rng.choice([('left_', 'right_'), ('a.', 'b.'), ('', 'r.')])
-    if rng.random() < 0.1:
-        call['show_progress'] = True
+    if rng.random() < 0.25:
+        call['show_progress'] = True          # the documented default
     return call
 
 
@@ -198,7 +199,15 @@ def run_case(case, rec, ssj=None, counter=None):
     # threshold: an attained score (so '=' / '!=' / boundary operators bite) or a random value
     call['threshold'] = 0.5
     cols, rows, scores, present = expected_rows(call)
-    if scores and rng.random() < 0.7:
+    r = rng.random()
+    fl = [s for s in scores if isinstance(s, float) and s == s and abs(s) != float('inf') and s != 0.0]
+    if fl and r < 0.15:
+        # one ulp (or a few) next to an attained score: '=' must not match it, '!=' must
+        s = rng.choice(fl)
+        for _ in range(rng.choice([1, 1, 2, 4])):
+            s = gen.nextafter(s, rng.choice([-1e300, 1e300]))
+        call['threshold'] = s
+    elif scores and r < 0.7:
         call['threshold'] = rng.choice(scores)
     else:
         call['threshold'] = rng.choice([0.3, 0.5, 1, 2, 0.75, 1.0, 0, 0.0, -1, -0.5, -3])
@@ -257,7 +266,9 @@ def run_shard(shard, rec):
     for i in range(shard['n']):
         case = {'gen': 'am', 'seed': shard['seed'] * 100000 + i}
         if shard['kind'] == 'loky':
-            case['backend'] = 'loky'
+            # real worker processes: the library's default backend and joblib's 'multiprocessing' one
+            # (which pickles bound methods through the library's own copyreg hook)
+            case['backend'] = 'loky' if i % 3 else 'multiprocessing'
         st = run_case(case, rec, ssj, counter)
         call = st['call']
         rec.case(sig=('am', case['seed'], case.get('backend')), nontrivial=st['present'] > 0,
